@@ -1065,6 +1065,7 @@ char * SCPI_dtostre(double __val, char * __s, size_t __ssize, unsigned char __pr
         memmove(s + decpt + 1, s, __prec + 1);
         memset(s, '0', decpt + 1);
         s[1] = '.';
+        s += decpt; /* skip the inserted leading zeros so that s[__prec] below is again the last digit */
         decpt = 0;
     } else {
         memmove(s + 2, s + 1, __prec + 1);
